@@ -49,8 +49,8 @@ def lemma(n, timeout=900, solver=None):
 def cases(tier):
     if tier == "quick":
         # the block recogniser's 'incomplete block swallows the rest' rule (second anchor of C08) is checked exactly at leaf level
-        return [lemma(4), buflogic(5), buflogic(6, overrun=1, bufsz=4), buflogic(5, overrun=1, bufsz=2), c13.leaf(8, 7)]
-    return [c13.leaf(8, 10, 3000), lemma(5, 6000), lemma(6, 9000, "cadical"), buflogic(6, timeout=3000), buflogic(7, timeout=6000), buflogic(8, overrun=1, bufsz=5, timeout=3000), mk(3, 0, 9000, "cadical")]
+        return [lemma(4), buflogic(5), buflogic(6, overrun=1, bufsz=4), buflogic(5, overrun=1, bufsz=2), c13.leaf(8, 8)]
+    return [c13.leaf(8, 12, 3000), lemma(5, 6000), lemma(6, 9000, "cadical"), buflogic(6, timeout=3000), buflogic(7, timeout=6000), buflogic(8, overrun=1, bufsz=5, timeout=3000), mk(3, 0, 9000, "cadical")]
 
 
 META = dict(
